@@ -263,3 +263,49 @@ def densdiam_traces(ctx, sources):
     if sample:
         ctx.sample({'trace_event': sample})
     return tot_obj, tot_ev
+
+
+# --------------------------------------------------------------------------------------
+def postproc_cfg(rank):
+    return '\n'.join([
+        'CONSTANTS Rank = %d' % rank, 'MaxResolve = 1000000', 'Deviant = FALSE',
+        'INIT TraceInit', 'NEXT TraceNext', 'VIEW TraceView', 'CHECK_DEADLOCK FALSE',
+        'INVARIANTS ContentsPristine FlagTruthful NoSpaceError',
+        'POSTCONDITION TraceAccepted', ''])
+
+
+def postproc_groups(evs):
+    """per PRISM object: the successful solve events and the depth-0 calculate events after the first"""
+    order, groups = [], {}
+    for e in evs:
+        if e['ev'] == 'prism.solve':
+            o = (e.get('pid'), e['prism'])
+            if e.get('success') == 1:
+                if o not in groups:
+                    order.append(o)
+                    groups[o] = []
+                groups[o].append(dict(e, obj=e['prism']))
+        elif e['ev'].startswith('calc.') and e.get('depth') == 0:
+            o = (e.get('pid'), e['prism'])
+            if o in groups:
+                groups[o].append(dict(e, obj=e['prism']))
+    return [(o, groups[o]) for o in order]
+
+
+def postproc_traces(ctx, extra_sources=()):
+    thorough = ctx.tier == 'thorough'
+    ev1, i1 = record_pytest(ctx, ['CalcPRISM_test.py'], 'suite_calc')
+    ev2, i2 = record_driver(ctx, 'prism_driver', [ctx.seed, 'calc', 6 if thorough else 2], 'driver_calc')
+    tot = 0
+    for name, evs, info in [('suite', ev1, i1), ('driver', ev2, i2)] + list(extra_sources):
+        groups = postproc_groups(evs)
+        byrank = {}
+        for o, g in groups:
+            byrank.setdefault(g[0]['rank'], []).append((o, g))
+        for rank, gs in sorted(byrank.items()):
+            a, b = validate(ctx, 'Trace_PostProc', postproc_cfg(rank), gs, 'trace.PostProc.%s.rank%d' % (name, rank))
+            tot += a
+            ctx.stage('trace.PostProc.' + name, rank=rank, objects=len(gs), objects_accepted=a, events_accepted=b, source=info)
+        if groups:
+            ctx.sample({'trace_event': groups[0][1][-1]})
+    return tot
